@@ -9,10 +9,15 @@ import os
 
 LEVEL = "model_checking"
 EXPLANATION = ("mirsym Mode A over the closures of MDBShardFile::load_all / clean_expired_shards (MIR regenerated from /repo): the "
-               "load and delete decisions as functions of (expiry, now, grace) for all 64-bit values; Kani harnesses over the keyed export.")
-BOUNDS = "all 64-bit (expiry, now, grace) values; one shard per decision"
+               "load and delete decisions as functions of (expiry, now, grace) for all 64-bit values - loaded iff not past expiry (or "
+               "load_expired), deleted iff expiry + grace (saturating) <= now, never both at one instant. Mode A over "
+               "export_as_keyed_shard_impl: each lookup table's entry count in the exported footer equals (flag ? number of collected "
+               "entries : 0) for the flag that guards collecting that table's entries, on every Ok path of the footer region, and entries "
+               "are collected only under that flag. Mode B over ShardFileManager::chunk_hash_dedup_query: after a key collection's "
+               "candidate was checked the function returns only with a match or an error, otherwise it asks the next collection.")
+BOUNDS = "all 64-bit (expiry, now, grace) values; one shard per decision; all paths of the export's footer region, one iteration of each collecting loop from an arbitrary state; all CFG paths of the manager query"
 ASSUMPTIONS = ["tracing macros and Arc::deref are havocked calls (over-approximation)", "the clock value is below u64::MAX for the 'never loaded and deleted at once' obligation"]
-OUTSIDE = ["the shard manager's per-key collections (tokio)", "directory scans (file system)"]
+OUTSIDE = ["that exported chunk hashes are the keyed form of the originals (blake3 keyed hash is FFI); the manager's collection registration (tokio RwLock histories)", "directory scans (file system)"]
 
 
 def _run(fns, pat, prefix):
@@ -90,6 +95,134 @@ def build_expiry(fns):
 _FE = ["mdb_shard::shard_file_handle::MDBShardFile::load_all::{closure#0}", "MDBShardFile::clean_expired_shards::{closure#0}"]
 
 
+def _footer_fields():
+    src = open(os.path.join(REPO, "mdb_shard/src/shard_format.rs")).read()
+    body = src[src.index("pub struct MDBShardFileFooter"):]
+    body = body[body.index("{") + 1:body.index("\n}")]
+    names = [m.group(1) for m in re.finditer(r"^\s+pub (\w+):", body, re.M)]
+    return {n: i for i, n in enumerate(names)}
+
+
+TABLES = (("file_lookup", "include_file_info"), ("cas_lookup", "include_cas_lookup_table"), ("chunk_lookup", "include_chunk_lookup_table"))
+
+
+def build_export(fns):
+    """keyed export: each lookup table is written (entry count in the footer) under exactly the flag that guards collecting its entries"""
+    f = mir.find_fn(fns, r"shard_format::<impl at [^>]*>::export_as_keyed_shard_impl$")
+    fld = _footer_fields()
+    L = lambda name, which=0: symex.parse_place(f.debug[name][which])[1]
+    foot = L("out_footer")
+    sc = smt.Script("c18_export_tables_follow_flags")
+    # (a) footer region: from the assignment of file_lookup_offset to the return
+    start = None
+    for bb in f.order:
+        if f.blocks[bb][2]:
+            continue
+        if any(re.match(r"\(%s\.%d: u64\) = " % (foot, fld["file_lookup_offset"]), st) for st in f.blocks[bb][0]):
+            start = bb
+    if start is None:
+        raise LookupError("assignment of out_footer.file_lookup_offset not found")
+    s = symex.Sym(f, prefix="ex.", models=symex.STD_MODELS, max_visits=1)
+    paths = s.run(start, max_paths=60000)
+    ok_paths = [p for p in paths if p.end == "return" and not any(re.search(r"FromResidual<.*>>::from_residual$", e[0]) for e in p.events)]
+    if not ok_paths:
+        raise LookupError("no Ok-returning path through the footer region (%d paths)" % len(paths))
+    p0 = symex.Path()
+    p0.decls = s.decls
+    seen = set()
+    for i, p in enumerate(ok_paths):
+        sig = []
+        for tbl, flag in TABLES:
+            v = p.store.get("%s.%d" % (foot, fld[tbl + "_num_entry"]))
+            sig.append(v.t if v is not None else None)
+        sig = tuple(sig)
+        if sig in seen:
+            continue
+        seen.add(sig)
+        for (tbl, flag), cnt in zip(TABLES, sig):
+            fl = s.load(p, ("local", L(flag)), "bool").t
+            ln = p.store.get("len(%s)" % L(tbl))
+            if cnt is None:
+                sc.query("export: %s_num_entry is set on every Ok path [path %d]" % (tbl, i), ["true"])
+                continue
+            want = mk_ite_(fl, ln.t if ln is not None else None, bvconst(0, 64))
+            if want is None:
+                # the table's length was not read on this path: the count must be 0 and the flag off
+                sc.query("export: %s table absent (count 0) only when %s is off [path %d]" % (tbl, flag, i), p.pc + [mk_not(mk_and([mk_eq(cnt, bvconst(0, 64)), mk_not(fl)]))])
+            else:
+                sc.query("export: %s_num_entry == (%s ? number of collected entries : 0) [path %d]" % (tbl, flag, i), p.pc + [mk_not(mk_eq(cnt, want))])
+        sc.query("witness: export footer path feasible [path %d]" % i, p.pc, expect="sat", kind="witness")
+    sc.declare(s.decls)
+    # (b) collecting loops: an entry is pushed into a table's vector exactly under that table's flag
+    loops = mir.natural_loops(f)
+    s2 = symex.Sym(f, prefix="ec.", models=symex.STD_MODELS, max_visits=1)
+    for tbl, flag in TABLES:
+        vec = L(tbl)
+        pat = r"Vec::<.*>::push$"
+        def pushes_into(b):
+            t = mir.parse_term(f.blocks[b][1])
+            if t["kind"] != "call" or not re.search(pat, t["func"]) or not t["args"]:
+                return False
+            m_ = re.match(r"(?:move|copy) (_\d+)$", t["args"][0].strip())
+            return bool(m_) and any(st == "%s = &mut %s" % (m_.group(1), vec) for bb_ in f.order for st in f.blocks[bb_][0])
+        heads = [h for h, body in loops.items() if any(pushes_into(b) for b in body)]
+        if not heads:
+            raise LookupError("no loop collects entries of %s" % tbl)
+        # innermost such loop
+        head = min(heads, key=lambda h: len(loops[h]))
+        n_push = 0
+        for i, p in enumerate(s2.run(head, max_paths=20000)):
+            if p.end != "bound":
+                continue
+            pushed = False
+            for e in p.events:
+                if re.search(pat, e[0]) and e[4][0].kind == "ref" and s2.key(e[4][0].t) == vec:
+                    pushed = True
+            fl = s2.load(p, ("local", L(flag)), "bool").t
+            if pushed:
+                n_push += 1
+                sc.query("export: an entry is collected for %s only when %s is on [loop path %d]" % (tbl, flag, i), p.pc + [mk_not(fl)])
+        if not n_push:
+            raise LookupError("collecting loop of %s has no pushing path" % tbl)
+    sc.declare(s2.decls)
+    return [sc]
+
+
+def mk_ite_(c, a, b):
+    if a is None:
+        return None
+    return "(ite %s %s %s)" % (c, a, b)
+
+
+def build_manager(fns):
+    """ShardFileManager::chunk_hash_dedup_query: a per-collection candidate that does not match is not the final answer"""
+    from mirsym import modeb
+    g = modeb.CFG(mir.find_fn(fns, r"shard_file_manager::<impl at [^>]*>::chunk_hash_dedup_query::\{closure#0\}$"))
+    direct = g.blocks_calling(r"MDBShardFile::chunk_hash_dedup_query_direct$")
+    nxt = g.blocks_calling(r"Iter<'_, (\w+::)*KeyedShardCollection> as Iterator>::next$")
+    resid = g.blocks_calling(r"FromResidual<.*>>::from_residual$")
+    if not direct or not nxt:
+        raise LookupError("manager query shape not recognised (direct=%s next=%s)" % (direct, nxt))
+    sc = smt.Script("c18_manager_tries_every_collection")
+    some_edges = []
+    for d in direct:
+        b = g.term[d]["target"]
+        # `?`: Try::branch, switch on its discriminant, Continue arm
+        if b and g.callee(b) and re.search(r"as Try>::branch$", g.callee(b)):
+            sw = g.term[b]["target"]
+            if sw and g.term[sw]["kind"] == "switch":
+                cont = [v for k, v in g.term[sw]["targets"] if k == 0]
+                for c in cont:
+                    if g.term[c]["kind"] == "switch" and any("discriminant(" in st for st in g.fn.blocks[c][0]):
+                        some_edges += [(c, v) for k, v in g.term[c]["targets"] if k == 1]
+    rets = sorted(g.real_returns)
+    modeb.no_path_query(g, sc, "after a collection's candidate was checked, the function returns only with a match, with the error, or after asking the next collection",
+                        modeb.after(g, direct), rets, nxt + resid, avoid_edges=some_edges)
+    modeb.no_path_query(g, sc, "witness: a match is returned", modeb.after(g, direct), rets, nxt + resid, expect="sat", kind="witness")
+    modeb.no_path_query(g, sc, "witness: the next collection is asked after a candidate failed", modeb.after(g, direct), nxt, resid, expect="sat", kind="witness")
+    return [sc]
+
+
 def replay(model, fnd, prop):
     env = base_env()
     env["CARGO_TARGET_DIR"] = os.path.join(BUILD, "replay_target")
@@ -105,5 +238,11 @@ def replay(model, fnd, prop):
 
 
 SMT = [Q("c18_expiry", "load / delete decisions of keyed shards as functions of (expiry, now, grace)", "mdb_shard", build_expiry, functions=_FE,
-         bounds="all 64-bit values", replay=replay)]
+         bounds="all 64-bit values", replay=replay),
+       Q("c18_manager_collections", "a failed candidate in one key collection does not end the search (Mode B)", "mdb_shard", build_manager,
+         functions=["mdb_shard::shard_file_manager::ShardFileManager::chunk_hash_dedup_query"], bounds="all CFG paths", solvers=("z3", "cvc5-bv"),
+         replay=native_test("c18_mixed_key_dedup", "C18 violated", "native replay passes: keyed shard answers like the original next to an unkeyed shard")),
+       Q("c18_export_tables", "keyed export writes each lookup table under the flag that collects it", "mdb_shard", build_export,
+         functions=["mdb_shard::shard_format::MDBShardInfo::export_as_keyed_shard_impl"], bounds="all paths of the footer region; one iteration of each collecting loop from an arbitrary state",
+         replay=native_test("c18_export_flags", "C18 violated", "native replay passes: every flag combination keeps what it was asked to keep"))]
 KANI = []
